@@ -41,7 +41,7 @@ def replay(d):
 
 def check(run):
     run.level = "other"
-    run.deductive(PC.MODULES)
+    PC.deductive(run)
     rnd = random.Random(run.seed)
     pool = list(P.CRAFTED) + P.validation_reactions(50 if run.tier == "quick" else 800, seed=run.seed)
     fails, cases, distinct, samples = [], 0, set(), []
